@@ -44,6 +44,7 @@ func report(prop, tier string, seed int, l *Loaded, results []*taskResult, known
 	unreproduced := 0
 	knownPrinted := map[string]bool{}
 	nondet := map[string]int{}
+	cross := map[string]int{}
 	var notes []string
 
 	if replayErr != nil {
@@ -175,6 +176,9 @@ func report(prop, tier string, seed int, l *Loaded, results []*taskResult, known
 		for k, v := range e.NondetSites {
 			nondet[k] += v
 		}
+		for k, v := range e.Cross {
+			cross[k] += v
+		}
 		notes = append(notes, e.Notes...)
 		for _, inc := range e.Incomplete {
 			inconclusive = append(inconclusive, tr.Harness+": "+inc)
@@ -276,8 +280,10 @@ func report(prop, tier string, seed int, l *Loaded, results []*taskResult, known
 					if failed {
 						line += " [replayed natively: " + p + "]"
 					} else {
-						line += " [solver witness did NOT reproduce natively: " + p + "]"
-						inconclusive = append(inconclusive, "known finding '"+what+"': witness did not reproduce natively")
+						line += " [this run's witness (model of the abstraction) did not reproduce natively: " + p + "]"
+						if !strings.Contains(w.Note, "abstraction") {
+							inconclusive = append(inconclusive, "known finding '"+what+"': exact witness did not reproduce natively")
+						}
 					}
 				}
 			}
@@ -366,6 +372,7 @@ func report(prop, tier string, seed int, l *Loaded, results []*taskResult, known
 			"solver": map[string]interface{}{
 				"cmd": strings.Join(solverCmd, " "), "queries": solverQ, "sat": solverSat, "unsat": solverUnsat, "unknown": solverUnk, "time_s": solverTime,
 			},
+			"cross_solver": cross,
 			"bounds": boundsFor(tier),
 			"load_s": l.LoadS,
 			"notes":  notes,
